@@ -42,6 +42,7 @@ type Stats struct {
 	Transitions    int64            `json:"transitions"`
 	Outcomes       map[string]int64 `json:"outcomes"`
 	Complete       bool             `json:"complete"`
+	Diverged       int64            `json:"diverged,omitempty"` // executions that left the prefix they were given (see strictReplay)
 	MaxDepth       int              `json:"max_depth"`
 	MaxThreads     int              `json:"max_threads"`
 	TimersFired    int64            `json:"timers_fired"`
@@ -59,6 +60,8 @@ type explorer struct {
 	st     *Stats
 	items  int64
 	stop   bool
+	// incomplete: some execution diverged from its prefix (nondeterminism the scheduler does not own)
+	incomplete bool
 }
 
 // Explore enumerates every execution of body whose number of preemptions is at most
@@ -80,7 +83,7 @@ func Explore(cfg Config, body func(), oracle func(*ExecResult) Verdict) *Stats {
 	e.st = &Stats{Name: cfg.Name, Bound: cfg.Bound, Outcomes: map[string]int64{}, ViolationCount: map[string]int64{}}
 	t0 := time.Now()
 	e.explore(nil, 0, 0)
-	e.st.Complete = !e.stop
+	e.st.Complete = !e.stop && !e.incomplete
 	e.st.WallS = time.Since(t0).Seconds()
 	return e.st
 }
@@ -119,6 +122,12 @@ func (e *explorer) explore(prefix []int, used int, depth int) {
 		e.st.SleepBlocked++
 	} else if e.owner(depth) {
 		e.record(x, prefix, used)
+	}
+	if x.Diverged {
+		// the execution left the prefix it was given: what lies below cannot be enumerated from its trace
+		e.st.Diverged++
+		e.incomplete = true
+		return
 	}
 	for i := len(prefix); i < len(x.Trace); i++ {
 		d := x.Trace[i]
@@ -171,12 +180,25 @@ func (e *explorer) record(x *ExecResult, prefix []int, used int) {
 			// deterministic? replay the same choices five times, with descriptions
 			ch := x.Choices()
 			var desc []string
+			varies := false
 			for r := 0; r < 5 && !v.NoReplayCheck; r++ {
 				// four plain replays must reproduce the observations byte for byte; the
 				// fifth runs with call-site descriptions (which may appear in messages)
 				y := runOnce(ch, r == 4, e.cfg.Sleep, e.body)
 				w := e.oracle(y)
 				same := w.Key == v.Key && fmt.Sprint(y.Choices()) == fmt.Sprint(ch)
+				if w.Key == v.Key && w.Fail != "" && (!same || w.Fail != v.Fail || (r < 4 && fmt.Sprint(y.Log) != fmt.Sprint(x.Log))) {
+					// the same clause fails every time the schedule is replayed, only the details (or the number of
+					// steps the code takes) differ: something the scheduler does not own (map iteration order in
+					// the code under test, say) reaches the observation. The failure itself is reproducible - it is
+					// reported, with that remark; a replay that does NOT fail is another matter (below).
+					if !varies {
+						varies = true
+						v.Fail += " [the details of this failure vary between replays of the one schedule: something outside the scheduler's control - e.g. map iteration order in the code under test - reaches the observation]"
+					}
+					desc = y.Desc
+					continue
+				}
 				if r < 4 {
 					same = same && w.Fail == v.Fail && fmt.Sprint(y.Log) == fmt.Sprint(x.Log)
 				}
@@ -184,7 +206,7 @@ func (e *explorer) record(x *ExecResult, prefix []int, used int) {
 					toolFail(fmt.Sprintf("NONDETERMINISM replaying a violating schedule of %s:\nfirst:  %s\n        %v\nreplay: %s\n        %v", e.cfg.Name, v.Fail, x.Log, w.Fail, y.Log))
 				}
 				desc = y.Desc
-				if r == 4 {
+				if r == 4 && !varies {
 					v.Fail = w.Fail
 				}
 			}
